@@ -56,6 +56,10 @@ def check(ctx):
     _r7(ctx, pkg)
     _r8(ctx)
     _r9(ctx, pkg)
+    # the identifier of a species is a function of the species and of the network's own tables: no class-level cache
+    # (symbol tables, parsed species) survives from one network to the next (shared with C17.R3)
+    from .c17 import discovered_state
+    ctx.absorb(lambda sub: discovered_state(sub, package(sub.tree), "R10"), "R10", only=lambda o: o.outcome != "MISSING")
 
 
 # ------------------------------------------------------------------ the alias rule (R6 anchor)
@@ -757,6 +761,9 @@ def _r9(ctx, pkg):
 
 
 MUTANTS = [
+    {"name": "alias-symbol-table-memo", "edits": [
+        {"file": SP, "old": "    _replacement = {}\n", "new": "    _replacement = {}\n    _symtab = None\n"},
+        {"file": SP, "old": "        if not self._alias:\n            basename = self.basename\n", "new": "        if not self._alias:\n            if Species._symtab is None:\n                Species._symtab = {}\n            basename = self.basename\n"}], "rules": ["R10"]},
     {"name": "macro-loop-index1", "file": MACROS, "old": "#define IDX_{{ spec.alias }} {{ loop.index0 }}", "new": "#define IDX_{{ spec.alias }} {{ loop.index }}", "rules": ["R4"]},
     {"name": "py-index-sorted", "file": PYIDX, "old": "{% for spec in network.species %}", "new": '{% for spec in network.species | sort(attribute="name") %}', "rules": ["R4"]},
     {"name": "macro-rejects-surface", "file": MACROS, "old": "{% for spec in network.species %}\n#define IDX_", "new": '{% for spec in network.species | rejectattr("is_surface") %}\n#define IDX_', "rules": ["R4"]},
